@@ -870,8 +870,20 @@ Lemma sx_n_of_nat n : sx_n (of_nat n) = n.
 Proof. unfold sx_n, of_nat. cbn. apply Nat2Z.id. Qed.
 Lemma sx_bool_of_bool b : sx_bool (of_bool b) = b.
 Proof. destruct b; reflexivity. Qed.
+(* run-length form of long byte strings: decoding the encoder's output gives the bytes back *)
+Lemma unrle_rle_go p : forall b n, unrle (rle_go b n p) = repeat b n ++ p.
+Proof. induction p as [|x r IH]; intros b n; cbn [rle_go].
+  - cbn [unrle]. unfold run_byte. cbn [sx_b]. now rewrite sx_n_of_nat.
+  - destruct (Byte.eqb x b) eqn:E.
+    + apply byte_eqb_eq in E. subst x. rewrite IH. cbn [repeat]. rewrite repeat_cons, <- app_assoc. reflexivity.
+    + cbn [unrle]. unfold run_byte at 1. cbn [sx_b]. rewrite sx_n_of_nat, IH. reflexivity. Qed.
+Lemma unrle_rle p : unrle (rle p) = p.
+Proof. destruct p as [|x r]; [reflexivity|]. unfold rle. now rewrite unrle_rle_go. Qed.
+Lemma sx_rb_enc_bytes p : sx_rb (enc_bytes p) = p.
+Proof. unfold enc_bytes. destruct (length p <=? rle_min); cbn [sx_rb sx_b]; [reflexivity|apply unrle_rle]. Qed.
 Lemma dec_enc_ev e : dec_ev (enc_ev e) = e.
-Proof. destruct e; cbn; [|reflexivity]. unfold dec_ev. cbn. now rewrite sx_n_of_nat. Qed.
+Proof. destruct e; cbn [enc_ev]; [|reflexivity]. unfold dec_ev, sx_nth. cbn [sx_l nth sx_z].
+  now rewrite sx_rb_enc_bytes, sx_n_of_nat. Qed.
 Lemma dec_enc_res r : dec_res (enc_res r) = r.
 Proof. destruct r; unfold dec_res; cbn; rewrite ?sx_n_of_nat, ?sx_bool_of_bool; reflexivity. Qed.
 Lemma dec_enc_tr tr : dec_tr (enc_tr tr) = tr.
@@ -1082,6 +1094,41 @@ Proof. unfold strong_ok. destruct (orun (eff_size c) oinit ops tr) as [s'|] eqn:
   { unfold OG, oinit, qlen; cbn. split; [exists []; auto|]. split; [lia|reflexivity]. }
   destruct (orun_sound _ _ _ _ _ _ _ G0 H) as [((g & Hacc & Hsw) & Hl & Hp) Hr]. cbn [app] in *.
   split; [exists g, (q s'); auto|]. split; [exact Hr|]. apply eqb_prop in Ha. rewrite Ha, Hp. reflexivity. Qed.
+
+(* the strong oracle judges EVERY point of the history, not only its end: acceptance is prefix-closed,
+   so after each operation the bytes held back are whole writes of at most the configured size *)
+Lemma orun_prefix sz ops : forall tr s s' n, orun sz s ops tr = Some s' ->
+  exists s1, orun sz s (firstn n ops) (firstn n tr) = Some s1.
+Proof. induction ops as [|o r IH]; intros tr s s' n H; destruct tr as [|[rs es] tr]; cbn [orun] in H; try discriminate.
+  - rewrite !firstn_nil. exists s. reflexivity.
+  - destruct n as [|n]; [exists s; reflexivity|]. cbn [firstn orun].
+    destruct (ostep sz s o rs es) as [s1|]; [|discriminate]. exact (IH _ _ _ n H). Qed.
+
+Theorem oracle_sound_every_point c ops tr alive n : strong_ok c ops tr alive = true ->
+  exists groups rest, accepted (firstn n ops) = concat groups ++ rest /\
+    received (all_evs (firstn n tr)) = map (@concat byte) groups /\ length (concat rest) <= eff_size c.
+Proof. unfold strong_ok. destruct (orun (eff_size c) oinit ops tr) as [s'|] eqn:H; [|discriminate]. intros _.
+  destruct (orun_prefix _ _ _ _ _ n H) as (s1 & H1).
+  assert (G0 : OG (eff_size c) [] [] (ph oinit) oinit).
+  { unfold OG, oinit, qlen; cbn. split; [exists []; auto|]. split; [lia|reflexivity]. }
+  destruct (orun_sound _ _ _ _ _ _ _ G0 H1) as [((g & Hacc & Hsw) & Hl & _) _]. cbn [app] in *.
+  exists g, (q s1). auto. Qed.
+
+(* the bound every theorem and both oracles use IS the configured Size: no rounding, no minimum;
+   only Size 0 (zap's default, 256 KiB) and negative sizes (bufio's default, 4096) are replaced *)
+Theorem size_configured_thm (c : Z) :
+  ((0 < c)%Z -> Z.of_nat (eff_size c) = c) /\ (c = 0%Z -> eff_size c = 256 * 1024) /\ ((c < 0)%Z -> eff_size c = 4096).
+Proof. with_strategy transparent [eff_size] unfold eff_size. split; [|split]; intros H.
+  - destruct (c =? 0)%Z eqn:E1; [apply Z.eqb_eq in E1; lia|]. destruct (c <? 0)%Z eqn:E2; [apply Z.ltb_lt in E2; lia|].
+    apply Z2Nat.id. lia.
+  - subst c. reflexivity.
+  - destruct (c =? 0)%Z eqn:E1; [apply Z.eqb_eq in E1; lia|]. destruct (c <? 0)%Z eqn:E2; [reflexivity|apply Z.ltb_ge in E2; lia]. Qed.
+
+(* hence, for a positive configured Size, the bytes held back never exceed that very number *)
+Theorem held_configured_thm c outs ops : (0 < c)%Z -> reliable outs = true ->
+  (Z.of_nat (length (buf (w (fst (run (init c outs) ops))))) <= c)%Z.
+Proof. intros Hc Hr. pose proof (whole_thm c outs ops Hr) as H. destruct (run (init c outs) ops) as [s tr].
+  destruct H as [_ H]. cbn [fst]. destruct (size_configured_thm c) as [Hs _]. rewrite <- (Hs Hc). lia. Qed.
 
 Theorem weak_oracle_sound ops : forall tr p, wrun p ops tr = true ->
   exists p', p ++ consumed ops tr = concat (received (all_evs tr)) ++ p'.
